@@ -20,6 +20,12 @@ def _pandas(vec: Dict[str, Any]):
     df = pd.DataFrame({"a": [None if x == NULL else float(x) for x in vec["a"]], "b": [int(x) for x in vec["b"]],
                        "rid": list(range(n))}, index=index)
     df["a"] = df["a"].astype("float64")
+    # column labelling: strings, integers, or tuples (MultiIndex columns)
+    L = {"intcols": {"a": 0, "b": 1, "rid": 2}, "tuplecols": {"a": ("x", "a"), "b": ("x", "b"), "rid": ("y", "rid")}}.get(ixk, {"a": "a", "b": "b", "rid": "rid"})
+    if ixk == "tuplecols":
+        df.columns = pd.MultiIndex.from_tuples([L[c] for c in df.columns])
+    elif ixk == "intcols":
+        df.columns = [L[c] for c in df.columns]
     checks = []
     if S["gt0"]:
         checks.append(pa.Check.gt(0))
@@ -28,11 +34,11 @@ def _pandas(vec: Dict[str, Any]):
     kw: Dict[str, Any] = {}
     if S["unique"] != "no":
         kw = {"unique": True, "report_duplicates": S["unique"]}
-    cols = {"a": pa.Column(float, checks=checks, nullable=S["nullable"], **kw), "b": pa.Column(int), "rid": pa.Column(int)}
+    cols = {L["a"]: pa.Column(float, checks=checks, nullable=S["nullable"], **kw), L["b"]: pa.Column(int), L["rid"]: pa.Column(int)}
     skw: Dict[str, Any] = {}
     if S["joint"] != "no":
-        skw = {"unique": ["a", "b"], "report_duplicates": S["joint"]}
-    fchecks = [pa.Check(lambda d: (d["a"] <= d["b"] + 1) | d["a"].isna(), name="rowcheck")] if S["rowcheck"] else []
+        skw = {"unique": [L["a"], L["b"]], "report_duplicates": S["joint"]}
+    fchecks = [pa.Check(lambda d: (d[L["a"]] <= d[L["b"]] + 1) | d[L["a"]].isna(), name="rowcheck")] if S["rowcheck"] else []
     schema = pa.DataFrameSchema(cols, checks=fchecks, drop_invalid_rows=vec["mode"] == "drop", **skw)
     return schema, df
 
@@ -86,7 +92,7 @@ def observe_rows(vec: Dict[str, Any]) -> Dict[str, Any]:
         try:
             res = schema.validate(df, **kw)
             out["kind"] = "ok"
-            out["kept"] = [int(x) + 1 for x in (res["rid"].to_list() if vec["backend"] == "polars" else list(res["rid"]))]
+            out["kept"] = [int(x) + 1 for x in (res["rid"].to_list() if vec["backend"] == "polars" else list(res.iloc[:, 2]))]
             out["type_ok"] = type(res) is type(df)
         except (pa0.errors.SchemaErrors, pa0.errors.SchemaError) as e:
             out["kind"] = "raises"
